@@ -1780,6 +1780,83 @@ def run(ctx, anchors=None):
                          % ((f.name, bad24[0][1], repr(chr(bad24[0][0])) if isinstance(bad24[0][0], int) and 0 <= bad24[0][0] < 128 else bad24[0][0], bad24[0][2], astq.estr(mallocs[0])[:40]) if bad24 else (f.name, "", "", "", "")))
     ctx.floor("R15.24", n24, 1, "functions with a sizing pass and a writing pass over the same string")
 
+    # ---- R15.25 an unsigned difference does not wrap: `C.size() - e` with a varying e is evaluated only where e <= C.size() has been
+    # decided (a dominating comparison of the same two operands, or the condition of the ?: it sits in). A wrapped difference used
+    # as an offset passes a later `begin + size > C.size()` test again (the sum wraps back) and addresses memory before the buffer.
+    ctx.rule("R15.25", "an unsigned size difference with a varying subtrahend is evaluated only where the subtrahend does not exceed the size")
+
+    def _norm25(e):
+        while e is not None and (e.get("k") in ("cast", "paren") or (e.get("k") == "mcall" and e.get("n") in ("getint",) and e.get("obj") is not None)):
+            e = e["e"] if e.get("k") in ("cast", "paren") else e["obj"]
+        return astq.estr(e) if e is not None else None
+
+    def _decides_le(cn, truth, small, big):
+        """the condition node cn with outcome `truth` implies small <= big (operands compared by spelling, casts and .getint() dropped)"""
+        while cn is not None and cn.get("k") in ("cast", "paren"):
+            cn = cn["e"]
+        if cn is None:
+            return False
+        if cn.get("k") == "bin" and cn.get("op") in ("&&", "||"):
+            # a && b true: both hold; a || b false: both fail
+            if (cn["op"] == "&&") == bool(truth):
+                return _decides_le(cn["lhs"], truth, small, big) or _decides_le(cn["rhs"], truth, small, big)
+            return False
+        if cn.get("k") == "un" and cn.get("op") == "!":
+            return _decides_le(cn["e"], not truth, small, big)
+        op = cn.get("op")
+        if cn.get("k") == "bin":
+            a, b = cn["lhs"], cn["rhs"]
+        elif cn.get("k") == "opcall" and len(cn.get("args", [])) == 2:
+            a, b = cn["args"]
+        else:
+            return False
+        if op not in ("<", "<=", ">", ">="):
+            return False
+        ta, tb = _norm25(a), _norm25(b)
+        if {ta, tb} != {small, big}:
+            return False
+        if ta == big:      # big op small  ->  small op' big
+            op = {"<": ">", "<=": ">=", ">": "<", ">=": "<="}[op]
+        # now: small op big
+        return (op in ("<", "<=") and bool(truth)) or (op == ">" and not truth)
+    n25 = 0
+    for f in sorted(fb.funcs.values(), key=lambda f_: f_.id):
+        if f.body is None or not auth(f) or (f.file, f.line, "R15.25") in done21:
+            continue
+        subs = []
+        for n in f.nodes():
+            if n["k"] == "bin" and n.get("op") == "-" and astq.const_value(n["rhs"]) is None:
+                l0 = n["lhs"]
+                while l0 is not None and l0.get("k") in ("cast", "paren"):
+                    l0 = l0["e"]
+                if l0 is not None and l0.get("k") == "mcall" and l0.get("n") in ("size", "length") and "unsigned" in (n.get("ty") or "unsigned"):
+                    subs.append(n)
+        if not subs:
+            continue
+        done21.add((f.file, f.line, "R15.25"))
+        fcfg = f.cfg()
+        for n in subs:
+            n25 += 1
+            ctx.site()
+            big, small = _norm25(n["lhs"]), _norm25(n["rhs"])
+            decided = any(_decides_le(f.node_by_id(c_), t_, small, big) for (c_, t_) in fcfg.guards_of(n))
+            if not decided:
+                child = n
+                for a in f.ancestors(n):
+                    if a.get("k") == "cond" and a.get("cond") is not None and not S.contains(a["cond"], n):
+                        side = S.contains(a.get("then"), n)
+                        if _decides_le(a["cond"], side, small, big):
+                            decided = True
+                    if a.get("k") == "if" and a.get("cond") is not None and not S.contains(a["cond"], n):
+                        if _decides_le(a["cond"], S.contains(a.get("then"), n), small, big):
+                            decided = True
+                    child = a
+            ctx.inst(decided, "R15.25", "difference-does-not-wrap:%s@%s" % (astq.estr(n)[:40], f.name), f.loc(n),
+                     "`%s` is evaluated where %s <= %s has been decided" % (astq.estr(n)[:50], small, big),
+                     "%s evaluates `%s` without having decided %s <= %s: for a larger %s the unsigned difference wraps to a huge value (as an offset it addresses memory before the buffer, and a later `offset + n > size` test wraps back and passes)"
+                     % (f.name, astq.estr(n)[:60], small, big, small))
+    ctx.floor("R15.25", n25, 1, "unsigned size differences with a varying subtrahend")
+
     # ---------------------------------------------------------------- R15.9
     ev = fb.fn("Instance::eval", file="instance.cpp")
     opstep = fb.fn("StepScript", file="script/interpreter.cpp")
@@ -2093,6 +2170,7 @@ MUTANTS = [
     dict(name="string-bytes-copied-with-memcpy", file="value.h", find="            data.assign(str.begin(), str.end());\n", replace="            data.resize(str.length());\n            memcpy(data.data(), str.data(), str.length());\n", expect=["R15.23:non-null-pointer:data.data()@Value::data_value"]),
     dict(name="escape-writes-uncounted-character", file="kerl/kerl.c", find="        case '\"': *(ptr++) = '\\\\'; *(ptr++) = '\"'; break;\n        default: *(ptr++) = input[i];", replace="        case '\"': *(ptr++) = '\\\\'; *(ptr++) = '\"'; break;\n        case '$': *(ptr++) = '\\\\'; *(ptr++) = '$'; break;\n        default: *(ptr++) = input[i];", expect=["R15.24:sizing-and-writing-agree@escape"]),
     dict(name="escape-counts-one-character-less", file="kerl/kerl.c", find="case '\\n': case '\\t': case '\\r': case '\\b': case '\\\\': case '\"': escapes++;", replace="case '\\n': case '\\t': case '\\r': case '\\\\': case '\"': escapes++;", expect=["R15.24:sizing-and-writing-agree@escape"]),
+    dict(name="argument-count-difference-unguarded", file="tap.cpp", find="    size_t sargc = sai < ca.l.size() ? ca.l.size() - sai : 0;", replace="    size_t sargc = ca.l.size() - sai;", expect=["R15.25:difference-does-not-wrap"]),
     dict(name="token-sized-stack-array", file="instance.cpp", find="            if (std::to_string(n) == v) {", replace="            char nbuf[vlen + 1];\n            snprintf(nbuf, vlen + 1, \"%d\", n);\n            if (!strcmp(nbuf, v)) {", expect=["R15.18:vla:nbuf@Instance::eval"]),
     dict(name="hashtype-buffer-uninitialised", file="debugger/interpreter.h", find="    char buf[100] = \" \"; // the names are joined with blanks; the leading one is skipped below", replace="    char buf[100];", expect=["R15.19:buffer-written-before-read:buf@hashtype_str"]),
     dict(name="value-member-without-initialiser", file="value.h", find="    opcodetype opcode = OP_0;", replace="    opcodetype opcode;", expect=["R15.20:members-initialised:Value"]),
